@@ -35,6 +35,7 @@ def run(ctx):
     ctx.guard(rule_d, ctx, ix, reg)
     ctx.guard(rule_e, ctx, ix, reg)
     ctx.guard(rule_g, ctx, ix)
+    ctx.guard(rule_h, ctx, ix, reg)
     # every registered loader version must still load: back-references are resolved after the object is published
     from ..report import BorrowedCtx
     from .C02 import rule_f as _backrefs
@@ -477,3 +478,97 @@ def rule_g(ctx, ix):
                       'several datasets, one of which is the dataset of the output, is taken for an internal one, is not installed and '
                       'disappears from the restored collection (records of protocols 1-3)' % (quant, var, coll, pred), where=where(f, st))
     ctx.ob(R, f.construct, 'the links between datasets are installed on the collection', True)
+
+
+def _loaded_shape(e, owner, depth=0):
+    """Layout of a value a loader builds: O = an object restored by context.object, V = a plain value, [..] = a fixed sequence,
+    ['*', s] = any number of s, {'k': s, 'v': s} = a mapping."""
+    if depth > 8 or e is None:
+        return 'V'
+    if isinstance(e, ast.Call):
+        nm = call_name(e)
+        if isinstance(e.func, ast.Attribute) and nm == 'object' and unparse(e.func.value) == 'context':
+            return 'O'
+        if isinstance(e.func, ast.Name) and nm in ('list', 'tuple', 'sorted', 'set', 'frozenset') and len(e.args) == 1:
+            return _loaded_shape(e.args[0], owner, depth + 1)
+        if isinstance(e.func, ast.Name) and nm in ('dict', 'OrderedDict') and len(e.args) == 1:
+            inner = _loaded_shape(e.args[0], owner, depth + 1)
+            if isinstance(inner, list) and len(inner) == 2 and inner[0] == '*' and isinstance(inner[1], list) and len(inner[1]) == 2:
+                return {'k': inner[1][0], 'v': inner[1][1]}
+            return 'V'
+        if isinstance(e.func, ast.Name) and nm == 'map' and len(e.args) == 2:
+            return ['*', 'O' if unparse(e.args[0]) == 'context.object' else 'V']
+        if isinstance(e.func, ast.Name):
+            for d in ast.walk(owner.node):
+                if isinstance(d, ast.FunctionDef) and d.name == e.func.id and d is not owner.node:
+                    rets = [r for r in ast.walk(d) if isinstance(r, ast.Return) and r.value is not None]
+                    if len(rets) == 1:
+                        return _loaded_shape(rets[0].value, owner, depth + 1)
+        return 'V'
+    if isinstance(e, (ast.List, ast.Tuple)):
+        return [_loaded_shape(x, owner, depth + 1) for x in e.elts]
+    if isinstance(e, (ast.ListComp, ast.GeneratorExp, ast.SetComp)):
+        return ['*', _loaded_shape(e.elt, owner, depth + 1)]
+    if isinstance(e, ast.DictComp):
+        return {'k': _loaded_shape(e.key, owner, depth + 1), 'v': _loaded_shape(e.value, owner, depth + 1)}
+    return 'V'
+
+
+def _instance_of(a, b):
+    """Is layout ``a`` a special case of layout ``b``?  (a fixed sequence of s is a case of "any number of s")"""
+    if a == b:
+        return True
+    if isinstance(b, list) and len(b) == 2 and b[0] == '*':
+        if isinstance(a, list) and not (len(a) == 2 and a[0] == '*'):
+            return all(_instance_of(x, b[1]) for x in a)
+        if isinstance(a, list) and len(a) == 2 and a[0] == '*':
+            return _instance_of(a[1], b[1])
+        return False
+    if isinstance(a, list) and isinstance(b, list) and len(a) == len(b):
+        return all(_instance_of(x, y) for x, y in zip(a, b))
+    if isinstance(a, dict) and isinstance(b, dict):
+        return _instance_of(a['k'], b['k']) and _instance_of(a['v'], b['v'])
+    return False
+
+
+def rule_h(ctx, ix, reg):
+    """The loaders of all versions build the same object: a field that several versions set directly has to come out in the layout
+    the newest version (and the rest of the package) uses - an old version that stored less (one identifier where there is now a
+    tuple of them) converts while loading."""
+    R = 'C12.h'
+    ctx.describe(R, 'a field set by the loaders of several versions has the layout of the newest version in each of them', floor=2)
+    n = 0
+    for t in sorted(reg.loaders):
+        vers = sorted(reg.loaders[t])
+        if len(vers) < 2:
+            continue
+        stores = {}
+        for v in vers:
+            ld = reg.loaders[t][v]
+            if ld.cls is not None:
+                continue
+            for st in ast.walk(ld.node):
+                if isinstance(st, ast.Assign) and len(st.targets) == 1 and isinstance(st.targets[0], ast.Attribute) and \
+                        isinstance(st.targets[0].value, ast.Name) and st.targets[0].value.id in ('result', 'obj', 'data', 'self_'):
+                    stores.setdefault(st.targets[0].attr, {})[v] = (st, ld)
+        for fld, byv in sorted(stores.items()):
+            if len(byv) < 2:
+                continue
+            newest = max(byv)
+            ref = _loaded_shape(byv[newest][0].value, byv[newest][1])
+            if ref == 'V':
+                continue
+            for v in sorted(byv):
+                if v == newest:
+                    continue
+                n += 1
+                st, ld = byv[v]
+                sh = _loaded_shape(st.value, ld)
+                ctx.ob(R, '%s v%d .%s' % (t.rpartition('.')[2], v, fld), 'the version-%d loader builds %s in the layout of version %d' % (v, fld, newest),
+                       _instance_of(sh, ref),
+                       detail='%s (version %d of %s) sets .%s to %s, the version-%d loader to %s: what a version-%d record restores to '
+                              'is not what the rest of the package expects there (for _key_joins: a bare identifier where the join code '
+                              'takes the length of a tuple of identifiers - the restored join raises on first use)'
+                              % (ld.name, v, t.rpartition('.')[2], fld, sh, newest, ref, v), where=where(ld, st))
+    if n < 2:
+        raise AnalysisError('C12.h: only %d fields set by several loader versions found' % n)
